@@ -3,6 +3,9 @@
 import json
 
 CHECKS = {
+ "C01": dict(cat="model_checking", tech="explicit-state BFS over reference-model states (position sets) + conformance replay of every model trace in a real bash",
+   text="For every grammar of the enumerated Level-B families the reference model (R6/R7) is explored breadth-first over word sequences up to the depth bound, deduplicated on the position set; every (state, cursor word, COMP_WORDBREAKS mode) trace is replayed in one real bash per grammar that sources the emitted script, and COMPREPLY / return code must equal what the grammar prescribes. Disagreements explained exactly by a listed deviation rule are reported as known findings.",
+   note="trusted: reference semantics R6/R7; bash 5.2 as installed; _get_comp_words_by_ref and bind stubs; probe commands with fixed output; the emitted script comes from the library pipeline, bound to the binary by C06", ref="4/C01"),
  "C02": dict(cat="model_checking", tech="explicit-state product automaton (reference NFA x compiled DFA), exhaustive small-scope grammar enumeration",
    text="For every enumerated grammar and each of the 4 shells, language equivalence (labels: text, description, fallback level, nested within-word automata) between the reference automaton and complgen's raw and minimized DFA is decided completely by exploring the finite product; grammars are all trees up to the node bound over a colliding vocabulary, so the verdict is exhaustive within that bound.",
    note="trusted: the harness's reference semantics (DESIGN.md section 2), the verif accessors (read-only); descriptions only compared where documented", ref="4/C02"),
